@@ -649,7 +649,8 @@ fn mapping_atomic_applicable_member_types_inner(
                 }
             }
 
-            let is_subtype = member_types.len() == atomic.vs.len();
+            // every requested key is a declared property: the index signature is not consulted
+            let is_subtype = member_types.len() == values.len();
             if !is_subtype
                 && let Some(v) = &atomic.indexed_properties
                 && v.key.is_all_strings()
